@@ -462,7 +462,11 @@ func (s *jsSpeller) expr(n *JSNode) {
 		} else {
 			s.t(".")
 		}
-		s.name(n.S)
+		if strings.HasPrefix(n.S, "#") {
+			s.t(n.S) // a private name is not an identifier occurrence
+		} else {
+			s.name(n.S)
+		}
 	case "index", "optindex":
 		s.object(n.Kids[0])
 		if n.K == "optindex" {
